@@ -225,6 +225,36 @@ class FileThreadDispatcher:
 STDOUT_DISPATCHER = FileThreadDispatcher(default=sys.stdout)
 STDERR_DISPATCHER = FileThreadDispatcher(default=sys.stderr)
 
+_REDIRECT_LOCK = threading.Lock()
+_REDIRECT_STATE = {"depth": 0, "saved": None}
+
+
+class redirect_std_to_dispatchers:
+    """Points ``sys.stdout``/``sys.stderr`` at the thread dispatchers while at
+    least one alias thread is inside this context.
+
+    ``sys.stdout`` is process-wide, so a per-thread save/restore lets the
+    thread that entered first restore the real stream while a thread that
+    entered later is still printing - its output then goes to the terminal
+    instead of its pipe.  Only the last thread to leave restores.
+    """
+
+    def __enter__(self):
+        with _REDIRECT_LOCK:
+            if _REDIRECT_STATE["depth"] == 0:
+                _REDIRECT_STATE["saved"] = (sys.stdout, sys.stderr)
+                sys.stdout = STDOUT_DISPATCHER
+                sys.stderr = STDERR_DISPATCHER
+            _REDIRECT_STATE["depth"] += 1
+        return self
+
+    def __exit__(self, ex_type, ex_value, ex_traceback):
+        with _REDIRECT_LOCK:
+            _REDIRECT_STATE["depth"] -= 1
+            if _REDIRECT_STATE["depth"] == 0:
+                sys.stdout, sys.stderr = _REDIRECT_STATE["saved"]
+                _REDIRECT_STATE["saved"] = None
+
 
 def parse_proxy_return(r, stdout, stderr):
     """Proxies may return a variety of outputs. This handles them generally.
@@ -454,8 +484,7 @@ class ProcProxyThread(threading.Thread):
             with (
                 STDOUT_DISPATCHER.register(sp_stdout),
                 STDERR_DISPATCHER.register(sp_stderr),
-                xt.redirect_stdout(STDOUT_DISPATCHER),
-                xt.redirect_stderr(STDERR_DISPATCHER),
+                redirect_std_to_dispatchers(),
                 XSH.env.swap(self.env, overlay=alias_env, __ALIAS_STACK=alias_stack),
             ):
                 r = run_with_partial_args(
